@@ -593,7 +593,9 @@ def ctf_case(rng, fmt, with_ni):
         dx = int(rng.choice([1000, 15000, 10000, 2500]))
         dy = dx if rng.random() < 0.5 else int(rng.choice([2000, 10000, 20000]))
     nph = int(rng.integers(1, 4))
-    names = ["Iron fcc", "Iron bcc", "Gold", "Ni", "_mineral 'Gold'  'Gold'", "Ti alpha", "ZrO2"]
+    # free-text names as acquisition software writes them: blanks, quotes, commas, points, brackets, semicolons
+    names = ["Iron fcc", "Iron bcc", "Gold", "Ni", "_mineral 'Gold'  'Gold'", "Ti alpha", "ZrO2", "Ni,Cr superalloy", "(Fe,Cr)7C3",
+             "Al 99.5", "M23C6; carbide"]
     phases, laue, sgs = [], [], []
     # (Laue class, centrosymmetric space group of that class)
     choices = [(11, 225), (11, 229), (9, 194), (5, 139), (3, 62), (2, 14), (7, 166), (1, 2), (4, 87), (6, 148), (8, 176), (10, 205),
